@@ -97,6 +97,9 @@ Proof.
   - apply (@sim_read R _ _).
 Qed.
 
+#[export] Instance string_merge_fresh R wf `{RSpec R} `{!MergeFresh R} : @MergeFresh (string_region R) (@string_spec R wf _).
+Proof. intros l Hl. apply (@merge_fresh R _ _ l Hl). Qed.
+
 (** C04: every string read at a valid index is a string that was pushed, hence well formed. *)
 Lemma string_read_wf R wf `{RegionOK R} s v :
   @inv _ (@string_spec R wf _) s -> @dom _ (@string_spec R wf _) s v ->
